@@ -26,6 +26,17 @@ Theorem C14_finish_never_panics : forall macros st s, finish_scope macros st <> 
 Proof. exact finish_scope_no_panic. Qed.
 Print Assumptions C14_finish_never_panics.
 
+(* Assembler::assemble, for every syntax tree: every nesting of scopes, every (cyclic, mis-applied,
+   ill-formed) macro table, every operand: bytes or an error value, never a panic *)
+Theorem C14_assemble_never_panics : forall ops s, assemble ops <> Panic s.
+Proof. exact assemble_no_panic. Qed.
+Print Assumptions C14_assemble_never_panics.
+
+(* the same including the parser's constant range check (Ingest::ingest from the tree down) *)
+Theorem C14_ingest_never_panics : forall ops s, ingest_ast ops <> Panic s.
+Proof. exact ingest_ast_no_panic. Qed.
+Print Assumptions C14_ingest_never_panics.
+
 Example C14_example :
   let r := ROp (AMacroDefE "f" [] (EMacro "f" [])) in
   assemble [r; ROp (AOp 0x60 (Some (EMacro "f" [])))] = err0 "RecursionLimit" /\
@@ -37,3 +48,5 @@ Check C14_eval_never_panics : forall labels macros fuel vars e s,
   eval labels macros fuel vars e <> Panic s.
 Check C14_layout_terminates : forall macros items, exists w pos, layout macros items = Ok (w, pos).
 Check C14_finish_never_panics : forall macros st s, finish_scope macros st <> Panic s.
+Check C14_assemble_never_panics : forall ops s, assemble ops <> Panic s.
+Check C14_ingest_never_panics : forall ops s, ingest_ast ops <> Panic s.
